@@ -553,8 +553,20 @@ def converter_lattice(repo, col, in_types=None):
                     w = (rints or clips)[0][1]
                     if not holds_all_values_of(w, i):
                         fails.setdefault(("work-exact",
-                                          "in=%s work=%s" % (LONG[i], LONG[w])),
+                                          "in=%s work=%s out=%s"
+                                          % (LONG[i], LONG[w], LONG[o])),
                                          []).append(LONG[o])
+                # a float target reached through another type that cannot hold
+                # the input exactly is rounded twice (not the nearest value)
+                if kind(o) == "f":
+                    for _, w in convs:
+                        if w != o and w != i and \
+                                not holds_all_values_of(w, i) and \
+                                not holds_all_values_of(o, i):
+                            fails.setdefault(
+                                ("double-rounding", "in=%s via=%s out=%s"
+                                 % (LONG[i], LONG[w], LONG[o])),
+                                []).append(LONG[o])
                 # order: rounding / clipping before the final cast
                 idx = {e[0]: k for k, e in enumerate(evs)}
                 if rints and idx["rint"] > idx.get("cast", 99):
@@ -605,6 +617,10 @@ def _why(what, construct, who):
                             "value / overflows on the final cast, for inputs %s",
         "work-exact": "the work type cannot hold every input value exactly "
                       "(targets %s): values change before rounding/clipping",
+        "double-rounding": "the value is first converted to an intermediate "
+                           "type that cannot hold it exactly and then to the "
+                           "float target (%s): the result is not always the "
+                           "nearest representable value",
         "final-cast": "the converter does not return the target type for "
                       "inputs %s",
         "order": "operation order wrong for %s",
